@@ -224,6 +224,7 @@ CHECKS = {
     },
     "C11": {
         "level": "fault_enumeration",
+        "crash_is_violation": True,  # a panic in one of the node's goroutines while it starts or goes on after a restart
         "rule": ("rapid draws a history (fresh node: genesis plus 0-11 blocks so that heights below and above the journal-"
                  "pruning threshold 10 occur; or the std world at height 18 plus 0-3 blocks; blocks of 0-5 transfers / Store "
                  "calls / failing calls / IBTPs) and a crash block h plus 1-2 continuation blocks. The durable writes of the commit "
@@ -237,12 +238,15 @@ CHECKS = {
                  "{h-1,h}; every block and interchain meta up to head readable; state version == head; raw state dump == the "
                  "uncrashed node's dump at head; head block's state root == current journal root; block store and index agree; "
                  "no transaction meta or receipt of a lost block is readable; executing the remaining blocks reproduces the "
-                 "uncrashed node's block hashes. Non-trivial = image that is neither "
+                 "uncrashed node's block hashes. TestC11Genesis: the commit of the genesis block itself is interrupted (0-3 of the state "
+                 "store's and 0-3 of the index store's durable writes reach the disk, block file complete), the node is started "
+                 "again: it comes up at height 1 with the genesis state of an uninterrupted node and block 2 has the same roots. "
+                 "Non-trivial = image that is neither "
                  "all-old nor all-new; distinct = (history, h, image)."),
         "assumptions": ["a process death leaves a prefix of each sequential write sequence; arbitrary subsets (power loss without fsync) are not enumerated",
                         "one leveldb batch and one file append are atomic units"],
-        "quick": [T("TestC11", 8, 8, steps=30)],
-        "thorough": [T("TestC11", 16, 250, steps=30, timeout=3000)],
+        "quick": [T("TestC11", 8, 8, steps=30), T("TestC11Genesis", 4, 30, steps=30)],
+        "thorough": [T("TestC11", 16, 250, steps=30, timeout=3000), T("TestC11Genesis", 16, 150, steps=30, timeout=3000)],
     },
     "C07": {
         "level": "exploration",
